@@ -1,7 +1,7 @@
 (* C03 — property theorems only.  Each is closed by `exact` of a lemma of C03_Proofs.v. *)
 From Coq Require Import List NArith ZArith Bool.
-From Dae Require Import C03_Spec C03_Model C03_Proofs C03_ParseProofs C03_BytesProofs C03_SeqProofs C03_HookProofs C03_FreshProofs C03_RecoverProofs.
-From Dae.gen Require Import C03_Consts C03_Layout.
+From Dae Require Import C03_Spec C03_Model C03_Proofs C03_ParseProofs C03_BytesProofs C03_SeqProofs C03_HookProofs C03_FreshProofs C03_RecoverProofs C03_JanSpec C03_JanModel C03_JanProofs.
+From Dae.gen Require Import C03_Consts C03_Layout C03_Janitor.
 Import ListNotations.
 Open Scope N_scope.
 
@@ -283,6 +283,55 @@ Definition C03_consuming_recover_repeatable : Prop :=
 Theorem C03_consuming_recover_refuted : ~ C03_consuming_recover_repeatable.
 Proof. exact consuming_recover_refuted_proof. Qed.
 Print Assumptions C03_consuming_recover_refuted.
+
+(* The userspace janitor (cleanupConnStateMapBeforeLocked).  Its source computes the age of an entry as the int64
+   difference of an int64 clock sample and the entry's last_seen converted to int64, compares it with `>`, and uses
+   the documented timeouts (the same as the kernel's). *)
+Theorem C03_janitor_source_shape :
+  JAN_AGE_SIGNED = true /\ JAN_CMP_STRICT = true /\
+  JAN_UDP_NS = DOC_UDP_IDLE_NS /\ JAN_UDP_DNS_NS = DOC_UDP_DNS_IDLE_NS /\
+  JAN_TCP_EST_NS = DOC_TCP_IDLE_NS /\ JAN_TCP_CLOSING_NS = DOC_TCP_CLOSING_NS /\
+  JAN_UDP_NS = UDP_CONN_STATE_TIMEOUT_NS /\ JAN_TCP_EST_NS = TCP_CONN_STATE_ESTABLISHED_TIMEOUT_NS /\
+  JAN_TCP_CLOSING_NS = TCP_CONN_STATE_CLOSING_TIMEOUT_NS.
+Proof. exact jan_source_shape_proof. Qed.
+Print Assumptions C03_janitor_source_shape.
+
+(* For every clock sample and every entry (any key, any state, last_seen before, at or AFTER the sample), an
+   ordinary sweep selects the entry exactly when sample - last_seen > its timeout as integers ... *)
+Theorem C03_janitor_selects_only_idle :
+  forall sample k s,
+    sample < TWO63 -> cs_last s < TWO63 ->
+    jan_code_selected false 0 sample k s = spec_jan_removes sample k (cs_state s =? 1) (cs_last s).
+Proof. exact jan_selects_iff_idle_proof. Qed.
+Print Assumptions C03_janitor_selects_only_idle.
+
+(* ... in particular never an entry the datapath refreshed at or after the sample. *)
+Theorem C03_janitor_never_selects_refreshed :
+  forall sample k s,
+    sample < TWO63 -> cs_last s < TWO63 -> sample <= cs_last s ->
+    jan_code_selected false 0 sample k s = false.
+Proof. exact jan_never_selects_refreshed_proof. Qed.
+Print Assumptions C03_janitor_never_selects_refreshed.
+
+(* With the age computed in uint64 instead, the same statement is false (an entry refreshed 1 ns after the sample
+   is selected). *)
+Definition C03_janitor_unsigned_selects_only_idle : Prop :=
+  forall sample k s, sample < TWO63 -> cs_last s < TWO63 ->
+    jan_selected false true false 0 sample k s = spec_jan_removes sample k (cs_state s =? 1) (cs_last s).
+Theorem C03_janitor_unsigned_refuted : ~ C03_janitor_unsigned_selects_only_idle.
+Proof. exact jan_unsigned_refuted_proof. Qed.
+Print Assumptions C03_janitor_unsigned_refuted.
+
+(* Sticky decision over histories with janitor sweeps: in any interleaving of datapath packets (any hooks, flows,
+   rule programs, clocks) and ordinary janitor sweeps (each with its own, possibly stale, clock sample), a TCP flow
+   keeps its stored decision as long as no packet restarts it or finds it expired (as in C03_sticky_decision) and
+   every sweep's sample is at most the entry's last refresh plus its timeout. *)
+Theorem C03_sticky_decision_with_janitor :
+  forall P evs st k d,
+    k_proto k = IPPROTO_TCP -> dec_of (ks_conn st) k = Some d -> quiet_events P st evs k ->
+    dec_of (ks_conn (run_events P st evs)) k = Some d.
+Proof. exact sticky_history_proof. Qed.
+Print Assumptions C03_sticky_decision_with_janitor.
 
 (* Non-vacuity: an established proxied TCP flow in the table; its ACK packet is redirected with the record,
    and a WAN-originated reply flow (entry without decision) passes. *)
